@@ -94,8 +94,8 @@ def _auto_inline(ctx, view, f, given):
         t = s.targets[0]
         if not t.name.startswith("_") or t.name.startswith("__") or t.name in role_names or t.name in out or t.cls is None:
             continue
-        body = [x for x in t.node.body if not (isinstance(x, ast.Expr) and isinstance(x.value, ast.Constant))]
-        if len(body) > 8:
+        # size by the number of statements at any depth (the number of *top-level* statements changes when a guard clause becomes an if/else)
+        if sum(1 for x in ast.walk(t.node) if isinstance(x, ast.stmt)) - 1 > 30:
             continue
         other = "SyncInterpreter" if view == "Interpreter" else "Interpreter"
         shared_with_twin = any(x.qualname == t.qualname for x in roles(ctx, other).funcs) and \
